@@ -108,6 +108,7 @@ func cmdSelftestFS(args []string) {
 			realRes := executeReal(&p, o)
 			os.RemoveAll(dir)
 			n++
+			simRes.SerErr, realRes.SerErr = "", "" // pool recycling (not the disk) decides this field
 			if same, why := simRes.Same(&realRes); !same {
 				fail("fault-free", &p, &simRes, &realRes, why)
 			}
@@ -180,6 +181,7 @@ func cmdSelftestFS(args []string) {
 						continue
 					}
 					faults++
+					simRes.SerErr, realRes.SerErr = "", ""
 					if same, why := simRes.Same(&realRes); !same {
 						fail(v.name+"@"+e.Op, &q, &simRes, &realRes, why)
 					}
